@@ -18,6 +18,10 @@ def ensure_loaded(extra_modules=()):
     if _LOADED.get("mods") != mods:
         loader.load(mods)
         _LOADED["mods"] = mods
+        fi = loader.SYM.get("evo.tools.file_interface")
+        if fi is not None:
+            from evoverif import textcells
+            fi.json = textcells.JsonFacade          # symbolic numbers travel through json as placeholder cells
     return loader.SYM
 
 
